@@ -114,6 +114,18 @@ check("C10", "proof",
       "UTF-8 decode inverts encode; timestamp/duration text round trips (strftime, pendulum, float seconds) and the "
       "compiled runner are a bounded stand-in (years 1-9999, range ends).",
       "contract-based deductive verification: symbolic execution + z3 (Real abstraction for double->int)", "DESIGN.md 4/C10")
+check("C11", "proof",
+      "Repository glue relative to datetime: each of the ten get* accessors (with and without a zone argument) is "
+      "executed symbolically with datetime's astimezone / fields / toordinal / isoweekday as uninterpreted functions: it "
+      "must pass the caller's zone to tz_parse and return IntType of month-1, day, day-1, ordinal-ordinal(Jan 1), "
+      "isoweekday mod 7, hour, minute, second, microsecond div 1000; tz_parse dispatch (none -> UTC, IANA name, otherwise "
+      "the +-HH:MM parser); timestamp +/- re-wraps the superclass result field by field including tzinfo, passes "
+      "NotImplemented through, turns a timedelta into a range-checked Duration; OverflowError/ValueError from time "
+      "arithmetic become error values in addition(). tz_offset_parse is decided on EVERY string of its (finite) language.",
+      "datetime/timedelta/pendulum are dependencies (exact integer-microsecond Gregorian arithmetic assumed); the calendar "
+      "itself, the arithmetic laws and the duration text grammar (float fsum) are a bounded sweep against an independent "
+      "proleptic Gregorian computation.",
+      "contract-based deductive verification relative to library contracts + exhaustive finite table + bounded calendar sweep", "DESIGN.md 4/C11")
 _pending = "contracts for this property are not built yet in this revision (work in progress, see DESIGN.md section 8 build order)"
-for _p in ["C03","C04","C05","C06","C07","C11","C12","C14","C16"]:
+for _p in ["C03","C04","C05","C06","C07","C12","C14","C16"]:
     NA[_p] = _pending
